@@ -104,6 +104,31 @@ type c10Case struct {
 	// setters); it must not influence the request under test, so it is not part of the model line
 	sibKind int
 	sibOps  []string
+	// further Do calls on the SAME Request object: per re-send the setter calls (n=, i=) made
+	// before it; RetryAttempt and the request state are whatever the previous call left
+	resend [][]string
+	// the interval function cancels the request's context when called with this attempt number (0: never)
+	ivx int
+}
+
+// dynamic: the retry option / context is edited while the call is in flight, or the Request is re-sent.
+func (tc *c10Case) dynamic() bool {
+	if len(tc.resend) > 0 || tc.ivx > 0 {
+		return true
+	}
+	for _, l := range [][]string{tc.conds, tc.after} {
+		for _, p := range l {
+			if strings.Contains(p, "~") {
+				return true
+			}
+		}
+	}
+	for _, h := range tc.hooks {
+		if h[0] == 'C' || h[0] == 'I' || h[0] == 'X' {
+			return true
+		}
+	}
+	return false
 }
 
 func c10Pairs(l [][2]string) string {
@@ -172,11 +197,29 @@ func (tc *c10Case) line(lane, mask string, obs []int64) string {
 		}
 		return "0"
 	}
+	ivx := "-"
+	if tc.ivx > 0 {
+		ivx = strconv.Itoa(tc.ivx)
+	}
 	return strings.Join([]string{lane, mask, c10Toks(tc.clientOps), c10Toks(tc.reqOps), c10Toks(tc.conds), c10Toks(tc.hooks),
 		c10Toks(tc.after), c10Toks(tc.script), ob,
 		c10Pairs(tc.cCookies), c10Multi(tc.cHeaders), c10Multi(tc.cForm), c10Multi(tc.cQuery), b2(tc.allowGet),
 		verifh.Hex(tc.method), verifh.Hex(tc.url), c10Pairs(tc.cookies), c10Multi(tc.headers), c10Multi(tc.form),
-		c10Pairs(tc.ordered), c10Multi(tc.query), b2(tc.multipart), files, body}, " ")
+		c10Pairs(tc.ordered), c10Multi(tc.query), b2(tc.multipart), files, body, tc.resendTok(), ivx}, " ")
+}
+
+func (tc *c10Case) resendTok() string {
+	if len(tc.resend) == 0 {
+		return "-"
+	}
+	out := make([]string, len(tc.resend))
+	for i, ops := range tc.resend {
+		out[i] = "_"
+		if len(ops) > 0 {
+			out[i] = strings.Join(ops, ",")
+		}
+	}
+	return strings.Join(out, ";")
 }
 
 // c10Wire decodes what the transport was handed into the canonical form the model prints.
@@ -280,6 +323,10 @@ type c10Run struct {
 	lastXAtt int     // X-Attempt of the returned response (-1: no HTTP response)
 	mutated  bool    // a hook with a non-noop action ran
 	runaway  bool
+	wrappedRO  *retryOption // the retry option whose interval function is currently observed
+	sendStart  []int        // index into log where each Do call begins
+	sendStartRA []int       // RetryAttempt when each Do call begins
+	sendWires  []int        // len(wires) when each Do call begins
 }
 
 func (x *c10Run) outcome(i int) string {
@@ -304,29 +351,32 @@ func (x *c10Run) RoundTrip(r *http.Request) (*http.Response, error) {
 		panic("c10: runaway retry loop")
 	}
 	o := x.outcome(k)
+	// responses and errors are tagged with the RetryAttempt of the attempt that produced them
+	// (= the pass index k as long as the Request is sent once; a re-sent Request goes on counting)
+	ra := x.req.RetryAttempt
 	switch o[0] {
 	case 't':
-		return nil, &c10Err{"t", k, nil}
+		return nil, &c10Err{"t", ra, nil}
 	case 'd':
-		return nil, &c10Err{"d", k, context.DeadlineExceeded}
+		return nil, &c10Err{"d", ra, context.DeadlineExceeded}
 	case 'c':
 		x.cancel()
-		return nil, &c10Err{"c", k, context.Canceled}
+		return nil, &c10Err{"c", ra, context.Canceled}
 	case 'z':
-		return nil, &c10Err{"w", k, nil}
+		return nil, &c10Err{"w", ra, nil}
 	case 'D': // the deadline of the request's own context passes during this attempt
 		x.ctx.finish(context.DeadlineExceeded)
-		return nil, &c10Err{"d", k, context.DeadlineExceeded}
+		return nil, &c10Err{"d", ra, context.DeadlineExceeded}
 	case 'L': // the response arrives, then the caller cancels the context
 		x.ctx.finish(context.Canceled)
 	}
 	code, _ := strconv.Atoi(o[1:])
 	content := "ok"
 	if o[0] == 'b' {
-		content = "bad:" + strconv.Itoa(k)
+		content = "bad:" + strconv.Itoa(ra)
 	}
 	return &http.Response{StatusCode: code, Status: strconv.Itoa(code) + " X", Proto: "HTTP/1.1", ProtoMajor: 1, ProtoMinor: 1,
-		Header:        http.Header{"X-Attempt": {strconv.Itoa(k)}, "Content-Type": {"application/json"}},
+		Header:        http.Header{"X-Attempt": {strconv.Itoa(ra)}, "Content-Type": {"application/json"}},
 		ContentLength: int64(len(content)), Body: io.NopCloser(strings.NewReader(content)), Request: r}, nil
 }
 
@@ -357,6 +407,7 @@ func (x *c10Run) obsTok(resp *Response, errTok string) string {
 
 // pred evaluates a behaviour-table predicate on what a callback can see.
 func (x *c10Run) pred(p string, resp *Response, hasErr bool) bool {
+	p, _, _ = strings.Cut(p, "~")
 	n, _ := strconv.Atoi(p[1:])
 	switch p[0] {
 	case 'E':
@@ -375,11 +426,75 @@ func (x *c10Run) pred(p string, resp *Response, hasErr bool) bool {
 	panic("c10: bad predicate " + p)
 }
 
+// edit performs an in-flight edit `c<k>` (SetRetryCount), `i<src>` (SetRetry…Interval), `x`
+// (cancel the context), optionally only `@<j>`: when the callback sees attempt number j —
+// through resp.Request, as a caller's callback would.
+func (x *c10Run) edit(e string, resp *Response) {
+	if e == "" {
+		return
+	}
+	r := x.req
+	if resp != nil && resp.Request != nil {
+		r = resp.Request
+	}
+	body, at, has := strings.Cut(e, "@")
+	if has {
+		if j, _ := strconv.Atoi(at); j != r.RetryAttempt {
+			return
+		}
+	}
+	switch body[0] {
+	case 'c':
+		k, _ := strconv.Atoi(body[1:])
+		r.SetRetryCount(k)
+		x.wrapInterval(false) // SetRetryCount creates the option (default interval) when there was none
+	case 'i':
+		x.applyOps([]string{"i=" + body[1:]}, nil, r)
+		x.wrapInterval(true)
+	case 'x':
+		x.cancel()
+	default:
+		panic("c10: bad edit " + e)
+	}
+}
+
+func c10EditOf(tok string) string {
+	_, e, _ := strings.Cut(tok, "~")
+	return e
+}
+
 func (x *c10Run) condStub(id int) RetryConditionFunc {
 	return func(resp *Response, err error) bool {
 		res := x.pred(x.tc.conds[id], resp, err != nil)
 		x.log = append(x.log, "C"+strconv.Itoa(id)+"@"+x.obsTok(resp, c10ErrTok(err))+"="+map[bool]string{true: "1", false: "0"}[res])
+		x.edit(c10EditOf(x.tc.conds[id]), resp)
 		return res
+	}
+}
+
+// wrapInterval makes the installed interval function observable: its answer is logged and
+// checked, and 0 is slept.  Called again whenever an edit may have installed another function.
+func (x *c10Run) wrapInterval(force bool) {
+	ro := x.req.retryOption
+	if ro == nil || ro.GetRetryInterval == nil || (!force && ro == x.wrappedRO) {
+		return
+	}
+	x.wrappedRO = ro
+	orig := ro.GetRetryInterval
+	ro.GetRetryInterval = func(resp *Response, attempt int) time.Duration {
+		d := orig(resp, attempt)
+		x.obs = append(x.obs, int64(d))
+		x.ivAtt = append(x.ivAtt, attempt)
+		x.log = append(x.log, "I"+strconv.Itoa(attempt)+"@"+c10View(resp)+"="+strconv.FormatInt(int64(d), 10))
+		if x.tc.ivx > 0 && x.tc.ivx == attempt {
+			x.cancel() // the interval function itself cancels the context
+		}
+		if x.ctx.Err() != nil {
+			// the wait must end through ctx.Done(): keep the timer well away so that the
+			// run is deterministic (zero intervals with a done context: lane ctxdone)
+			return 200 * time.Millisecond
+		}
+		return 0
 	}
 }
 
@@ -388,6 +503,11 @@ func (x *c10Run) hookStub(id int) RetryHookFunc {
 		x.log = append(x.log, "H"+strconv.Itoa(id)+"@"+x.obsTok(resp, c10ErrTok(err)))
 		a := x.tc.hooks[id]
 		if a == "N" {
+			return
+		}
+		switch a[0] {
+		case 'C', 'I', 'X': // edits the retry option / cancels the context, leaves the request alone
+			x.edit(strings.ToLower(a[:1])+a[1:], resp)
 			return
 		}
 		x.mutated = true
@@ -499,7 +619,7 @@ func (x *c10Run) build(dir string) (*Client, *Request) {
 		x.iter++
 		x.log = append(x.log, "B"+strconv.Itoa(r.RetryAttempt))
 		if x.outcome(x.iter-1) == "e" {
-			return &c10Err{"e", x.iter - 1, nil}
+			return &c10Err{"e", r.RetryAttempt, nil}
 		}
 		return nil
 	})
@@ -643,6 +763,7 @@ func (x *c10Run) build(dir string) (*Client, *Request) {
 				e = resp.Err
 			}
 			x.log = append(x.log, "A"+strconv.Itoa(i)+"@"+x.obsTok(resp, c10ErrTok(e)))
+			x.edit(c10EditOf(p), resp)
 			if x.pred(p, resp, e != nil) {
 				return &c10Err{"a" + strconv.Itoa(i), x.req.RetryAttempt, nil}
 			}
@@ -672,22 +793,8 @@ func (x *c10Run) build(dir string) (*Client, *Request) {
 	if ro := r.retryOption; ro != nil {
 		x.enabled = true
 		x.maxRetr = ro.MaxRetries
-		if orig := ro.GetRetryInterval; orig != nil {
-			// observe the installed interval function, do not sleep
-			ro.GetRetryInterval = func(resp *Response, attempt int) time.Duration {
-				d := orig(resp, attempt)
-				x.obs = append(x.obs, int64(d))
-				x.ivAtt = append(x.ivAtt, attempt)
-				x.log = append(x.log, "I"+strconv.Itoa(attempt)+"@"+c10View(resp)+"="+strconv.FormatInt(int64(d), 10))
-				if x.ctx.Err() != nil {
-					// the wait must end through ctx.Done(): keep the timer well away so that the
-					// run is deterministic (zero intervals with a done context: lane ctxdone)
-					return 200 * time.Millisecond
-				}
-				return 0
-			}
-		}
 	}
+	x.wrapInterval(true) // observe the installed interval function, do not sleep
 	return c, r
 }
 
@@ -699,6 +806,31 @@ func (x *c10Run) exec(dir string) {
 			c.Close()
 		}
 	}()
+	x.lastXAtt = -1
+	for si := 0; si <= len(x.tc.resend); si++ {
+		if si > 0 {
+			// the same Request object again: a fresh context, the caller's setter calls, Do
+			x.log = append(x.log, x.final)
+			x.ctx = newC10Ctx()
+			r.SetContext(x.ctx)
+			x.applyOps(x.tc.resend[si-1], nil, r)
+			newIv := false
+			for _, op := range x.tc.resend[si-1] {
+				newIv = newIv || strings.HasPrefix(op, "i=")
+			}
+			x.wrapInterval(newIv) // a freshly installed interval function must be observed too
+		}
+		x.sendStart = append(x.sendStart, len(x.log))
+		x.sendStartRA = append(x.sendStartRA, r.RetryAttempt)
+		x.sendWires = append(x.sendWires, len(x.wires))
+		if x.execOne(r) {
+			break
+		}
+	}
+}
+
+// execOne is one call of Do / Send; it reports whether the call panicked.
+func (x *c10Run) execOne(r *Request) bool {
 	var resp *Response
 	x.lastXAtt = -1
 	_, panicked := verifh.Safely(func() {
@@ -729,13 +861,15 @@ func (x *c10Run) exec(dir string) {
 			if errors.As(resp.Err, &e) {
 				es = strconv.Itoa(e.attempt) + "/" + e.kind
 			} else if resp.Err == context.Canceled || resp.Err == context.DeadlineExceeded {
-				es = strconv.Itoa(x.iter-1) + "/x" // ctx.Err() itself: handed back by the wait step
+				// ctx.Err() itself: handed back by the wait step, after RetryAttempt++
+				es = strconv.Itoa(r.RetryAttempt-1) + "/x"
 			} else {
 				es = "?/" + verifh.Hex(resp.Err.Error())
 			}
 		}
 		x.final = "R" + rs + ":" + es
 	}
+	return panicked
 }
 
 func (x *c10Run) answer() string { return strings.Join(append(append([]string{}, x.log...), x.final), " ") }
@@ -744,6 +878,9 @@ func (x *c10Run) answer() string { return strings.Join(append(append([]string{},
 func (x *c10Run) oracle() (ok bool, why string) {
 	tc := x.tc
 	fail := func(s string) (bool, string) { return false, s }
+	if tc.dynamic() {
+		return x.oracleDyn()
+	}
 	if x.final == "refused" {
 		if len(x.wires) != 0 {
 			return fail("refused but something was sent")
@@ -857,6 +994,129 @@ func (x *c10Run) oracle() (ok bool, why string) {
 		if (o == "t" || o == "d" || o == "c" || o == "z") && !strings.HasSuffix(x.final, ":"+strconv.Itoa(last)+"/"+map[string]string{"t": "t", "d": "d", "c": "c", "z": "w"}[o]) {
 			// a failing response middleware may replace nothing: resp.Err keeps the round-trip error
 			return fail("returned error is not the last attempt's: " + x.final)
+		}
+	}
+	return true, ""
+}
+
+// oracleDyn judges runs in which the retry option is edited in flight, the context is cancelled
+// by a callback, or the Request is sent again.  It replays the event log with the edits the
+// case's stubs perform (the model is not consulted): a further attempt may only follow a pass
+// whose check — made after that pass's response middleware — finds a retry option, and a count
+// that is negative or still ABOVE the attempt counter; never after a callback cancelled the
+// context; all attempts of one Do are identical unless a hook edited the request.
+func (x *c10Run) oracleDyn() (bool, string) {
+	tc := x.tc
+	fail := func(s string) (bool, string) { return false, s }
+	if x.runaway {
+		return fail("runaway retry loop")
+	}
+	enabled, count := x.enabled, x.maxRetr
+	apply := func(e string, attempt int) (cancel bool) {
+		if e == "" {
+			return false
+		}
+		body, at, has := strings.Cut(e, "@")
+		if has {
+			if j, _ := strconv.Atoi(at); j != attempt {
+				return false
+			}
+		}
+		switch body[0] {
+		case 'c':
+			count, _ = strconv.Atoi(body[1:])
+			enabled = true
+		case 'i':
+			if !enabled {
+				count = 0
+			}
+			enabled = true
+		case 'x':
+			return true
+		}
+		return false
+	}
+	for si, start := range x.sendStart {
+		end, final, wEnd := len(x.log), x.final, len(x.wires)
+		if si+1 < len(x.sendStart) {
+			end, final, wEnd = x.sendStart[si+1]-1, x.log[x.sendStart[si+1]-1], x.sendWires[si+1]
+		}
+		if si > 0 {
+			for _, op := range tc.resend[si-1] {
+				if strings.HasPrefix(op, "n=") {
+					apply("c"+op[2:], 0)
+				} else {
+					apply("i", 0)
+				}
+			}
+		}
+		if final == "panic" || final == "nil-response" {
+			return fail("call did not return normally: " + final)
+		}
+		if final == "refused" {
+			if end != start {
+				return fail("refused but something happened")
+			}
+			continue
+		}
+		if enabled && count != 0 && tc.body[0] == 'r' {
+			return fail("unreplayable body not refused up front")
+		}
+		toks := x.log[start:end]
+		checked := false
+		var enAt bool
+		var cntAt, ra int
+		cancelled := false
+		check := func() {
+			if !checked {
+				checked, enAt, cntAt = true, enabled, count
+			}
+		}
+		for i, tk := range toks {
+			attempt := 0
+			if at := strings.Index(tk, "@"); at >= 0 {
+				attempt, _ = strconv.Atoi(strings.SplitN(tk[at+1:], "/", 2)[0])
+			}
+			switch tk[0] {
+			case 'B':
+				if i > 0 {
+					check()
+					if cancelled {
+						return fail(fmt.Sprintf("send %d: attempt after a callback cancelled the context (pass with RetryAttempt %d)", si, ra))
+					}
+					if !enAt || (cntAt >= 0 && ra >= cntAt) {
+						return fail(fmt.Sprintf("send %d: a further attempt follows the pass with RetryAttempt %d although the check of that pass found enabled=%v count=%d", si, ra, enAt, cntAt))
+					}
+				}
+				ra, _ = strconv.Atoi(tk[1:])
+				checked, cancelled = false, false
+			case 'A':
+				id, _ := strconv.Atoi(tk[1:strings.Index(tk, "@")])
+				cancelled = apply(c10EditOf(tc.after[id]), attempt) || cancelled
+			case 'C':
+				check()
+				id, _ := strconv.Atoi(tk[1:strings.Index(tk, "@")])
+				cancelled = apply(c10EditOf(tc.conds[id]), attempt) || cancelled
+			case 'H':
+				check()
+				id, _ := strconv.Atoi(tk[1:strings.Index(tk, "@")])
+				if a := tc.hooks[id]; a[0] == 'C' || a[0] == 'I' || a[0] == 'X' {
+					cancelled = apply(strings.ToLower(a[:1])+a[1:], attempt) || cancelled
+				}
+			case 'I':
+				check()
+				iv, _ := strconv.Atoi(tk[1:strings.Index(tk, "@")])
+				if tc.ivx > 0 && iv == tc.ivx {
+					cancelled = true
+				}
+			}
+		}
+		if !x.mutated {
+			for i := x.sendWires[si] + 1; i < wEnd; i++ {
+				if x.wires[i] != x.wires[x.sendWires[si]] {
+					return fail(fmt.Sprintf("send %d: attempt %d differs from the first attempt of the call", si, i-x.sendWires[si]))
+				}
+			}
 		}
 	}
 	return true, ""
@@ -1160,12 +1420,120 @@ func TestVerif_C10_loop(t *testing.T) {
 			s.Count("interval-source")
 		}
 	}
+	// DYNAMIC (round 4): the retry option is edited while the call is in flight — SetRetryCount
+	// from a hook / a condition / a request-level response middleware, to a value below, at or
+	// above the attempt counter, on every call or at one attempt number —, on a request whose
+	// count starts unset / negative / positive.  The script keeps asking for retries.
+	fail8 := []string{"s503", "t", "s503", "t", "s503", "t", "s503", "t", "s200", "c"}
+	for _, n0 := range []string{"", "n=-1", "n=1", "n=2", "n=5"} {
+		for _, who := range []string{"hook", "cond", "after"} {
+			for _, k := range []int{-1, 0, 1, 2, 3, 7} {
+				for _, at := range []int{-1, 0, 1, 2, 3} {
+					tc := c10Simple()
+					tc.script = fail8
+					tc.conds, tc.hooks = []string{"T"}, []string{"N"}
+					tc.clientOps = []string{"i=f1"}
+					if n0 != "" {
+						tc.clientOps = append(tc.clientOps, n0)
+					}
+					tc.reqOps = []string{"ac0", "ah0"}
+					e := "c" + strconv.Itoa(k)
+					if at >= 0 {
+						e += "@" + strconv.Itoa(at)
+					}
+					switch who {
+					case "hook":
+						tc.hooks[0] = "C" + e[1:]
+					case "cond":
+						tc.conds[0] = "T~" + e
+					default:
+						tc.after = []string{"F~" + e}
+					}
+					tc.useSend = (k+at)%2 == 0
+					recs = append(recs, c10Exec(tc, dir))
+					s.Count("dyn:count-by-" + who)
+				}
+			}
+		}
+	}
+	// … a response middleware that switches retries ON for a request that has no retry option
+	for _, e := range []string{"c2", "c-1@0", "c1@0", "ix3", "c3@1"} {
+		tc := c10Simple()
+		tc.script = []string{"t", "t", "d", "t", "t", "s200", "c"}
+		tc.after = []string{"F~" + e}
+		recs = append(recs, c10Exec(tc, dir))
+		s.Count("dyn:enabled-in-flight")
+	}
+	// … a callback cancels the request's context: response middleware, condition, hook, the
+	// interval function itself; bounded and unbounded counts
+	for _, n0 := range []string{"n=-1", "n=5"} {
+		for _, who := range []string{"hook", "cond", "after", "ivl"} {
+			for _, at := range []int{-1, 0, 1, 2, 3} {
+				if (who == "ivl" && at < 1) || (who == "hook" && at == 0) {
+					continue
+				}
+				tc := c10Simple()
+				tc.script = fail8
+				tc.conds, tc.hooks = []string{"T"}, []string{"N", "N"}
+				tc.clientOps = []string{"i=x0", n0, "ah1"}
+				tc.reqOps = []string{"ac0", "ah0"}
+				e := "x"
+				if at >= 0 {
+					e += "@" + strconv.Itoa(at)
+				}
+				switch who {
+				case "hook":
+					tc.hooks[0] = "X" + e[1:]
+				case "cond":
+					tc.conds[0] = "T~" + e
+				case "after":
+					tc.after = []string{"F~" + e}
+				default:
+					tc.ivx = at
+				}
+				recs = append(recs, c10Exec(tc, dir))
+				s.Count("dyn:cancel-by-" + who)
+			}
+		}
+	}
+	// … a hook installs another interval function: the same retry's wait already uses it
+	for _, iv := range []string{"x5", "f3", "b100:100000", "x0"} {
+		for _, at := range []string{"", "@1", "@2"} {
+			tc := c10Simple()
+			tc.script = fail8
+			tc.hooks = []string{"I" + iv + at, "N"}
+			tc.clientOps = []string{"n=3", "i=f1", "ah1"}
+			tc.reqOps = []string{"ah0"}
+			recs = append(recs, c10Exec(tc, dir))
+			s.Count("dyn:interval-by-hook")
+		}
+	}
+	// RE-SEND: the same Request object is sent again (RetryAttempt is not reset by Do), after
+	// setter calls that give it a count below / at / above the retries already used
+	long := []string{"s503", "t", "s503", "s200", "s503", "s503", "t", "s200", "t", "s503", "s503", "s503", "s200", "s503", "c", "c", "c", "c"}
+	for _, n1 := range []string{"", "n=0", "n=1", "n=2", "n=3", "n=-1"} {
+		for _, again := range [][][]string{{{}}, {{"n=0"}}, {{"n=1"}}, {{"n=2"}}, {{"n=5"}}, {{"n=-1"}}, {{"n=1"}, {"n=4"}}, {{"i=x3"}}, {{"n=1", "i=f2"}}, {{}, {}}} {
+			tc := c10Simple()
+			tc.script = long
+			tc.conds, tc.hooks = []string{"G500", "E"}, []string{"N"}
+			tc.clientOps = []string{"i=f1", "ac0"}
+			tc.reqOps = []string{"ac1", "ah0"}
+			if n1 != "" {
+				tc.reqOps = append(tc.reqOps, n1)
+			}
+			tc.resend = again
+			tc.useSend = len(again) == 2
+			recs = append(recs, c10Exec(tc, dir))
+			s.Count("dyn:resend")
+		}
+	}
 	// random policies
 	n := verifh.N(2500, 120000)
 	for i := 0; i < n; i++ {
 		tc := c10Simple()
 		c10RandPolicy(r, tc)
 		tc.script = c10RandScript(r, 7)
+		c10RandDynamic(r, tc)
 		tc.useSend = r.Intn(2) == 0
 		if r.Intn(4) == 0 {
 			tc.method = verifh.Pick(r, []string{"POST", "PUT", "DELETE", "HEAD"})
@@ -1324,6 +1692,45 @@ func c10RandPolicy(r interface{ Intn(int) int }, tc *c10Case) {
 	if r.Intn(3) == 0 {
 		for i := 0; i < 1+r.Intn(2); i++ {
 			tc.after = append(tc.after, []string{"F", "F", "F", "Q503", "E", "L1", "Q200"}[r.Intn(7)])
+		}
+	}
+}
+
+// c10RandDynamic makes some random cases dynamic: a stub edits the retry option or cancels the
+// context in flight, the interval function cancels, the Request is sent again.
+func c10RandDynamic(r interface{ Intn(int) int }, tc *c10Case) {
+	if r.Intn(4) == 0 {
+		edits := []string{"c0", "c1", "c2", "c3", "c-1", "c1@2", "c0@1", "c2@3", "c5@1", "x@2", "x@1", "x", "ix4", "if7@1", "ib50:9000@2"}
+		e := edits[r.Intn(len(edits))]
+		switch r.Intn(4) {
+		case 0:
+			if len(tc.hooks) > 0 {
+				tc.hooks[r.Intn(len(tc.hooks))] = strings.ToUpper(e[:1]) + e[1:]
+			}
+		case 1:
+			if len(tc.conds) > 0 {
+				tc.conds[r.Intn(len(tc.conds))] += "~" + e
+			}
+		case 2:
+			if len(tc.after) == 0 {
+				tc.after = []string{"F"}
+			}
+			tc.after[r.Intn(len(tc.after))] += "~" + e
+		default:
+			tc.ivx = 1 + r.Intn(3)
+		}
+	}
+	if r.Intn(8) == 0 {
+		for i := 0; i <= r.Intn(2); i++ {
+			var ops []string
+			if r.Intn(3) != 0 {
+				ops = append(ops, "n="+[]string{"-1", "0", "1", "2", "3", "5"}[r.Intn(6)])
+			}
+			if r.Intn(4) == 0 {
+				ops = append(ops, "i="+[]string{"x2", "f5", "b10:1000"}[r.Intn(3)])
+			}
+			tc.resend = append(tc.resend, ops)
+			tc.script = append(tc.script, c10RandScript(r, 4)...) // every send ends at a "c" at the latest
 		}
 	}
 }
